@@ -148,7 +148,7 @@ fn run_once<T: Sc>(sc: &Scenario, rep: &mut RunReport, sample: bool) {
     let m = sc.model.m();
     let p = sc.model.nparams;
     crate::ctl::set_phase("model-build");
-    let built = guarded(|| build_separable::<T>(&sc.model, x.clone(), alpha0.clone(), ctl.clone()));
+    let built = guarded(|| build_separable::<T>(&sc.model, x.clone(), alpha0.clone(), ctl.clone(), None));
     let mut model = match built {
         Ok(Ok(mo)) => mo,
         Ok(Err(e)) => {
